@@ -354,6 +354,12 @@ func genConc(t *sim.Tape, fsKinds []string, maxClients, maxOps int, adversarial 
 		cfg.TempDomain = t.Range(2, 3)
 	}
 
+	if avfs.BuildFeatures()&avfs.FeatSetOSType != 0 && t.Chance(150) {
+		// an instance that emulates Windows (builds with avfs_setostype): other error values, both separators.
+		cfg.Windows = true
+		cfg.Symlinks = false
+	}
+
 	n := 2
 	for n < maxClients && t.Chance(350) {
 		n++
